@@ -31,9 +31,12 @@ def _nontrivial(recs):
 
 PROP = dict(
     specdir="cache", engine="c13",
-    mc=[dict(module="MemCache", cfg="MC_MemCache.cfg"),
-        dict(module="MemCacheWT", cfg="MC_MemCacheWT.cfg"),
-        dict(module="KeyLRU", cfg="MC_KeyLRU.cfg")],
+    mc=[dict(module="MemCache", cfg="MC_MemCache.cfg", tiers=("quick",)),
+        dict(module="MemCacheWT", cfg="MC_MemCacheWT.cfg", tiers=("quick",)),
+        dict(module="KeyLRU", cfg="MC_KeyLRU.cfg", tiers=("quick",)),
+        dict(module="MemCache", cfg="MC_MemCache_thorough.cfg", tiers=("thorough",), timeout=1800),
+        dict(module="MemCacheWT", cfg="MC_MemCacheWT_thorough.cfg", tiers=("thorough",), timeout=1800),
+        dict(module="KeyLRU", cfg="MC_KeyLRU_thorough.cfg", tiers=("thorough",), timeout=1800)],
     trace=dict(module="MemCacheTrace", cfg="MemCacheTrace.cfg", deque=True),
     chunk_lines=6000,
     nontrivial=_nontrivial,
